@@ -1992,6 +1992,66 @@ func (w *sfWorld) encTwin(enc, encSW *types.Func) bool {
 	return q.stmts(a.Body.List, b.Body.List)
 }
 
+// twinOverDelegating: Encode (a twin of EncodeSW) is `err := EncodeHeader(b, w); if err != nil { return err }; return b.X.Encode(w)`: the header,
+// then exactly ONE further call, a statically resolved method Encode(io.Writer) of a concrete type that has EncodeSW as well and whose
+// own Encode has the delegation pattern (hevc.DecConfRec, av1.CodecConfRec).  Returns the inner type's name, "" otherwise.
+func (w *sfWorld) twinOverDelegating(enc *types.Func) string {
+	fd, info := w.decls[enc], w.infoOf[enc]
+	if fd == nil || fd.Body == nil {
+		return ""
+	}
+	var inner []*types.Func
+	headers, other := 0, 0
+	ast.Inspect(fd.Body, func(n ast.Node) bool {
+		c, ok := n.(*ast.CallExpr)
+		if !ok {
+			return true
+		}
+		fo := sfCallee(info, c)
+		switch {
+		case fo != nil && sfFuncIs(fo, "mp4", "EncodeHeader"):
+			headers++
+		case fo != nil && fo.Name() == "Encode" && fo.Type().(*types.Signature).Recv() != nil:
+			inner = append(inner, fo)
+		default:
+			other++
+		}
+		return true
+	})
+	if headers != 1 || other != 0 || len(inner) != 1 {
+		return ""
+	}
+	m := inner[0]
+	rt := m.Type().(*types.Signature).Recv().Type()
+	if p, ok := rt.(*types.Pointer); ok {
+		rt = p.Elem()
+	}
+	named, ok := rt.(*types.Named)
+	if !ok {
+		return ""
+	}
+	if _, isIface := named.Underlying().(*types.Interface); isIface {
+		return ""
+	}
+	var mSW *types.Func
+	for i := 0; i < named.NumMethods(); i++ {
+		if x := named.Method(i); x.Name() == "EncodeSW" {
+			mSW = x
+		}
+	}
+	if mSW == nil || w.decls[m] == nil {
+		return ""
+	}
+	save := w.encPrelude
+	w.encPrelude = ""
+	why := w.encDelegating(m, mSW)
+	w.encPrelude = save
+	if why != "" {
+		return ""
+	}
+	return named.Obj().Pkg().Name() + "." + named.Obj().Name()
+}
+
 // oneCall: the body is `return F(recv, wr)` with F the package-level function mp4.name
 func (w *sfWorld) oneCall(fo *types.Func, name string, nargs int) bool {
 	fd, info := w.decls[fo], w.infoOf[fo]
@@ -2181,6 +2241,9 @@ func sfExtract(repo string) ([]sfDecFact, []sfEncFact, *sfWorld, error) {
 			class, why = "header", ""
 		case w.encTwin(enc, encSW):
 			class, why = "twin", ""
+			if in := w.twinOverDelegating(enc); in != "" {
+				class, why = "twin-deleg", in
+			}
 		default:
 			class = "separate"
 		}
@@ -2224,7 +2287,7 @@ func sfBool(b bool) string {
 
 var sfCoqClass = map[string]string{"body-fn": "CBodyFn", "pure-twin": "CPureTwin", "raw-body": "CRawBody", "delegating": "CDelegating", "container-twin": "CContainerTwin", "container-body": "CContainerBody", "separate": "CSeparate"}
 
-var sfCoqEncClass = map[string]string{"prelude": "EPrelude", "delegating": "EDelegating", "container": "EContainer", "header": "EHeader", "twin": "ETwin", "separate": "ESeparate"}
+var sfCoqEncClass = map[string]string{"twin-deleg": "ETwinDeleg", "prelude": "EPrelude", "delegating": "EDelegating", "container": "EContainer", "header": "EHeader", "twin": "ETwin", "separate": "ESeparate"}
 
 func sfRenderCoq(decs []sfDecFact, encs []sfEncFact) []byte {
 	var b bytes.Buffer
